@@ -214,88 +214,382 @@ def parse_scapy(text):
     return out
 
 
-BF = r"(pdu|reversed_pdu):bitfield\((-?\d+),(-?\d+)\)"
+# ---- the generated Lua is read as Lua: a lexer (comments, white space, decimal/hex numerals, strings) and a parser for the statement
+# forms a dissector script uses; nothing depends on how the writer spells a number or lays out a line
+LUA_TOKEN = re.compile(r"""
+    (?P<ws>\s+) | (?P<lcom>--\[(?P<eq>=*)\[.*?\](?P=eq)\]) | (?P<com>--[^\n]*) |
+    (?P<num>0[xX][0-9a-fA-F]+ | (?:\d+\.?\d*|\.\d+)(?:[eE][+-]?\d+)?) |
+    (?P<name>[A-Za-z_]\w*) | (?P<str>"(?:\\.|[^"\\\n])*" | '(?:\\.|[^'\\\n])*') |
+    (?P<op>==|~=|<=|>=|\.\.\.|\.\.|::|[-+*/%^\#<>=(){}\[\];:,.])
+    """, re.X | re.S)
+LUA_KEYWORDS = {"and", "break", "do", "else", "elseif", "end", "false", "for", "function", "if", "in", "local", "nil", "not", "or", "repeat",
+                "return", "then", "true", "until", "while"}
+
+
+def lua_tokens(text):
+    out, i = [], 0
+    while i < len(text):
+        m = LUA_TOKEN.match(text, i)
+        if not m:
+            raise ParseError("Lua: cannot tokenise at %r" % text[i:i + 30])
+        i = m.end()
+        k = m.lastgroup
+        if k in ("ws", "com", "lcom", "eq"):
+            continue
+        s = m.group(k)
+        if k == "num":
+            v = int(s, 16) if s[:2] in ("0x", "0X") else float(s)
+            if v != int(v):
+                raise ParseError("Lua: non-integral numeral " + s)
+            out.append(("num", int(v)))
+        elif k == "name":
+            out.append(("kw", s) if s in LUA_KEYWORDS else ("name", s))
+        elif k == "str":
+            out.append(("str", s[1:-1]))
+        else:
+            out.append(("op", s))
+    return out
+
+
+class LuaParser:
+    """statements -> tuples: ('if', [(cond, block)], else_block|None), ('local', names, exprs), ('assign', targets, exprs), ('call', expr),
+    ('function', name_expr, params, block), ('fornum', var, exprs, block), ('return', exprs), ('do', block).
+    expressions: ('num', v) ('str', s) ('name', n) ('const', kw) ('index', obj, key) ('call', f, args) ('method', obj, name, args)
+    ('bin', op, l, r) ('un', op, e) ('table', items) ('func', params, block)"""
+    BIN = [("or",), ("and",), ("<", ">", "<=", ">=", "~=", "=="), ("..",), ("+", "-"), ("*", "/", "%")]
+
+    def __init__(self, toks):
+        self.t, self.i = toks, 0
+
+    def peek(self, k=0):
+        return self.t[self.i + k] if self.i + k < len(self.t) else ("eof", None)
+
+    def at(self, kind, val=None):
+        p = self.peek()
+        return p[0] == kind and (val is None or p[1] == val)
+
+    def take(self, kind, val=None):
+        if not self.at(kind, val):
+            raise ParseError("Lua: expected %s %s, found %r" % (kind, val or "", self.peek()))
+        self.i += 1
+        return self.t[self.i - 1][1]
+
+    def block(self):
+        out = []
+        while not (self.at("eof") or (self.peek()[0] == "kw" and self.peek()[1] in ("end", "else", "elseif", "until"))):
+            if self.at("op", ";"):
+                self.i += 1
+                continue
+            out.append(self.statement())
+            if out[-1][0] == "return":
+                break
+        return out
+
+    def statement(self):
+        if self.at("kw", "if"):
+            self.i += 1
+            arms, els = [], None
+            c = self.expr()
+            self.take("kw", "then")
+            arms.append((c, self.block()))
+            while self.at("kw", "elseif"):
+                self.i += 1
+                c = self.expr()
+                self.take("kw", "then")
+                arms.append((c, self.block()))
+            if self.at("kw", "else"):
+                self.i += 1
+                els = self.block()
+            self.take("kw", "end")
+            return ("if", arms, els)
+        if self.at("kw", "local"):
+            self.i += 1
+            if self.at("kw", "function"):
+                self.i += 1
+                n = self.take("name")
+                return ("function", ("name", n)) + self.funcbody()
+            names = [self.take("name")]
+            while self.at("op", ","):
+                self.i += 1
+                names.append(self.take("name"))
+            exprs = []
+            if self.at("op", "="):
+                self.i += 1
+                exprs = self.exprlist()
+            return ("local", names, exprs)
+        if self.at("kw", "function"):
+            self.i += 1
+            n = ("name", self.take("name"))
+            while self.at("op", ".") or self.at("op", ":"):
+                self.i += 1
+                n = ("index", n, self.take("name"))
+            return ("function", n) + self.funcbody()
+        if self.at("kw", "for"):
+            self.i += 1
+            v = self.take("name")
+            self.take("op", "=")
+            ex = self.exprlist()
+            self.take("kw", "do")
+            b = self.block()
+            self.take("kw", "end")
+            return ("fornum", v, ex, b)
+        if self.at("kw", "do"):
+            self.i += 1
+            b = self.block()
+            self.take("kw", "end")
+            return ("do", b)
+        if self.at("kw", "return"):
+            self.i += 1
+            ex = [] if (self.at("eof") or self.peek()[0] == "kw" and self.peek()[1] in ("end", "else", "elseif")) else self.exprlist()
+            return ("return", ex)
+        e = self.suffixed()
+        if self.at("op", "=") or self.at("op", ","):
+            targets = [e]
+            while self.at("op", ","):
+                self.i += 1
+                targets.append(self.suffixed())
+            self.take("op", "=")
+            return ("assign", targets, self.exprlist())
+        if e[0] not in ("call", "method"):
+            raise ParseError("Lua: statement is neither assignment nor call: %r" % (e,))
+        return ("call", e)
+
+    def funcbody(self):
+        self.take("op", "(")
+        params = []
+        while not self.at("op", ")"):
+            params.append(self.take("name"))
+            if self.at("op", ","):
+                self.i += 1
+        self.take("op", ")")
+        b = self.block()
+        self.take("kw", "end")
+        return (params, b)
+
+    def exprlist(self):
+        out = [self.expr()]
+        while self.at("op", ","):
+            self.i += 1
+            out.append(self.expr())
+        return out
+
+    def expr(self, level=0):
+        if level == len(self.BIN):
+            return self.unary()
+        l = self.expr(level + 1)
+        while self.peek()[0] in ("op", "kw") and self.peek()[1] in self.BIN[level]:
+            op = self.peek()[1]
+            self.i += 1
+            l = ("bin", op, l, self.expr(level + 1))
+        return l
+
+    def unary(self):
+        if (self.peek()[0] == "op" and self.peek()[1] in ("-", "#")) or self.at("kw", "not"):
+            op = self.peek()[1]
+            self.i += 1
+            return ("un", op, self.unary())
+        return self.suffixed()
+
+    def args(self):
+        if self.at("str"):
+            return [("str", self.take("str"))]
+        if self.at("op", "{"):
+            return [self.table()]
+        self.take("op", "(")
+        a = [] if self.at("op", ")") else self.exprlist()
+        self.take("op", ")")
+        return a
+
+    def table(self):
+        self.take("op", "{")
+        items = []
+        while not self.at("op", "}"):
+            if self.at("name") and self.peek(1) == ("op", "="):
+                k = self.take("name")
+                self.i += 1
+                items.append((k, self.expr()))
+            else:
+                items.append((None, self.expr()))
+            if self.at("op", ",") or self.at("op", ";"):
+                self.i += 1
+        self.take("op", "}")
+        return ("table", items)
+
+    def suffixed(self):
+        p = self.peek()
+        if p[0] == "num":
+            self.i += 1
+            return ("num", p[1])
+        if p[0] == "str":
+            self.i += 1
+            return ("str", p[1])
+        if p[0] == "kw" and p[1] in ("nil", "true", "false"):
+            self.i += 1
+            return ("const", p[1])
+        if p[0] == "kw" and p[1] == "function":
+            self.i += 1
+            return ("func",) + self.funcbody()
+        if self.at("op", "{"):
+            return self.table()
+        if self.at("op", "("):
+            self.i += 1
+            e = self.expr()
+            self.take("op", ")")
+        else:
+            e = ("name", self.take("name"))
+        while True:
+            if self.at("op", "."):
+                self.i += 1
+                e = ("index", e, self.take("name"))
+            elif self.at("op", "["):
+                self.i += 1
+                k = self.expr()
+                self.take("op", "]")
+                e = ("index", e, k)
+            elif self.at("op", ":"):
+                self.i += 1
+                n = self.take("name")
+                e = ("method", e, n, self.args())
+            elif self.at("op", "(") or self.at("str") or self.at("op", "{"):
+                e = ("call", e, self.args())
+            else:
+                return e
+
+
+def lua_int(e):
+    """integer constant expression"""
+    if e[0] == "num":
+        return e[1]
+    if e[0] == "un" and e[1] == "-":
+        return -lua_int(e[2])
+    if e[0] == "bin" and e[1] in ("+", "-", "*"):
+        l, r = lua_int(e[2]), lua_int(e[3])
+        return l + r if e[1] == "+" else (l - r if e[1] == "-" else l * r)
+    raise ParseError("Lua: not an integer constant: %r" % (e,))
+
+
+# do_reverse_pdu as the convention T-WIRESHARK assumes it (compared as a syntax tree: layout, comments and numeral spelling do not matter)
+REVERSE_HELPER = """function do_reverse_pdu(pdu, length)
+    local rev=ByteArray.new()
+    rev:set_size(length)
+    for i=0,length-1 do
+        rev:set_index(length-i-1, pdu(i,1):uint())
+    end
+    return ByteArray.tvb(rev, "my Tvb"):range(0,length)
+end"""
 
 
 def parse_lua(text):
     """[{'id': int, 'name': frame, 'muxer': (range,off,len)|None, 'signals': {name: rec}}], rec as used by ws_eval plus 'mux'"""
-    m = re.search(r"^function add_frame_info\(can_id, pdu, dlc, framesubtree\)\n  reversed_pdu = do_reverse_pdu\(pdu, dlc\)\n(.*?)^end\n", text, re.S | re.M)
-    if not m:
-        raise ParseError("add_frame_info not found")
+    chunk = LuaParser(lua_tokens(text)).block()
+    funcs = {s[1][1]: s for s in chunk if s[0] == "function" and s[1][0] == "name"}
+    if "add_frame_info" not in funcs or funcs["add_frame_info"][2] != ["can_id", "pdu", "dlc", "framesubtree"]:
+        raise ParseError("add_frame_info(can_id, pdu, dlc, framesubtree) not found")
     # the reversing helper must be the one the convention assumes
-    if "rev:set_index(length-i-1, pdu(i,1):uint())" not in text:
+    want = LuaParser(lua_tokens(REVERSE_HELPER)).block()[0]
+    canon = lambda s: re.sub(r"\('str', '[^']*'\)", "S", repr(s))       # the Tvb's display label is free text
+    got = funcs.get("do_reverse_pdu")
+    if got is None or canon(got) != canon(want):
         raise ParseError("do_reverse_pdu differs from the transcription")
-    floats = set(re.findall(r"^(\w+) = ProtoField\.float\(", text, re.M))
+    floats = set()
+    for s in chunk:
+        if s[0] in ("assign", "local") and len(s[2]) == 1 and s[2][0][0] == "call" and s[2][0][1] == ("index", ("name", "ProtoField"), "float"):
+            tgt = s[1][0]
+            floats.add(tgt if isinstance(tgt, str) else tgt[1])
+    body = funcs["add_frame_info"][3]
+    if not body or body[0] != ("assign", [("name", "reversed_pdu")], [("call", ("name", "do_reverse_pdu"), [("name", "pdu"), ("name", "dlc")])]):
+        raise ParseError("reversed_pdu is not do_reverse_pdu(pdu, dlc)")
+
+    def bitfield(e):
+        if e[0] == "method" and e[2] == "bitfield" and e[1][0] == "name" and e[1][1] in ("pdu", "reversed_pdu") and len(e[3]) <= 2:
+            a = [lua_int(x) for x in e[3]]
+            return (e[1][1], a[0] if a else 0, a[1] if len(a) > 1 else 1)      # TvbRange:bitfield([position = 0], [length = 1])
+        raise ParseError("Lua: not a bitfield on pdu/reversed_pdu: %r" % (e,))
+
+    def value_expr(e):
+        """bitfield [- constant] -> (range, off, len, constant)"""
+        if e[0] == "bin" and e[1] == "-":
+            return bitfield(e[2]) + (lua_int(e[3]),)
+        if e[0] == "bin" and e[1] == "+":
+            return bitfield(e[2]) + (-lua_int(e[3]),)
+        return bitfield(e) + (0,)
+
+    def eq_const(cond, var):
+        """cond is `var == N` or `N == var` -> N"""
+        if cond[0] == "bin" and cond[1] == "==":
+            for x, y in ((cond[2], cond[3]), (cond[3], cond[2])):
+                if x == ("name", var):
+                    return lua_int(y)
+        raise ParseError("Lua: condition is not %s == <number>: %r" % (var, cond))
+
+    def tree_add(st):
+        """my_frame_tree:add(FIELD, value) -> (FIELD, value tuple)"""
+        if st[0] == "call" and st[1][0] == "method" and st[1][1] == ("name", "my_frame_tree") and st[1][2] == "add" and len(st[1][3]) == 2 \
+                and st[1][3][0][0] == "name":
+            return st[1][3][0][1], value_expr(st[1][3][1])
+        raise ParseError("Lua: statement not understood: %r" % (st,))
+
     frames = []
-    cur = None
-    mux = None
-    pend = None      # sign block under construction
-    lines = m.group(1).split("\n")
-    i = 0
-    bf = lambda g: (g[0], int(g[1]), int(g[2]))
-    while i < len(lines):
-        ln = lines[i].rstrip()
-        i += 1
-        if not ln.strip():
-            continue
-        mm = re.fullmatch(r"  if can_id == (\d+) then", ln)
-        if mm:
-            cur = dict(id=int(mm.group(1)), name=None, muxer=None, signals={}, floats=floats)
-            frames.append(cur)
-            continue
-        if cur is None:
-            raise ParseError("statement outside a frame block: " + ln)
-        mm = re.fullmatch(r"    local my_frame_tree = framesubtree:add\((\w+), pdu\(0, dlc\)\)", ln)
-        if mm:
-            cur["name"] = mm.group(1)
-            continue
-        if ln == "    local is_signed":
-            continue
-        mm = re.fullmatch(r"    local muxer = " + BF, ln)
-        if mm:
-            cur["muxer"] = bf(mm.groups())
-            continue
-        mm = re.fullmatch(r"    if muxer == (-?\d+) then", ln)
-        if mm:
-            mux = int(mm.group(1))
-            continue
-        if ln == "    end" and mux is not None and pend is None:
-            mux = None
-            continue
-        if ln == "  end":
-            cur = None
-            continue
-        body = ln.strip()
-        mm = re.fullmatch(r"is_signed =  " + BF, body)
-        if mm:
-            pend = dict(probe=bf(mm.groups()))
-            nxt = [lines[i + k].strip() for k in range(5)]
-            i += 5
-            a = re.fullmatch(r"my_frame_tree:add\((\w+), " + BF + r" - (\d+)\)", nxt[1])
-            b = re.fullmatch(r"my_frame_tree:add\((\w+), " + BF + r"\)", nxt[3])
-            if nxt[0] != "if is_signed == 1 then" or nxt[2] != "else" or nxt[4] != "end" or not a or not b or a.group(1) != b.group(1):
-                raise ParseError("sign block not understood: %r" % nxt)
-            rec = dict(probe=pend["probe"], then=bf(a.groups()[1:4]) + (int(a.group(5)),), **{"else": bf(b.groups()[1:4]) + (0,)}, plain=None, mux=mux)
-            fld = a.group(1)
-            pend = None
-        else:
-            b = re.fullmatch(r"my_frame_tree:add\((\w+), " + BF + r"\)", body)
-            if not b:
-                raise ParseError("statement not understood: " + ln)
-            rec = dict(probe=None, then=None, **{"else": None}, plain=bf(b.groups()[1:4]) + (0,), mux=mux)
-            fld = b.group(1)
-        if cur["name"] is None or not fld.startswith(cur["name"] + "_"):
-            raise ParseError("field %s does not belong to frame %s" % (fld, cur["name"]))
-        sname = fld[len(cur["name"]) + 1:]
-        if sname in cur["signals"]:
-            raise ParseError("signal dissected twice: " + sname)
-        rec["is_float_field"] = fld in floats
-        cur["signals"][sname] = rec
+    for st in body[1:]:
+        if st[0] != "if" or len(st[1]) != 1 or st[2] is not None:
+            raise ParseError("statement outside a frame block: %r" % (st[:1],))
+        cur = dict(id=eq_const(st[1][0][0], "can_id"), name=None, muxer=None, signals={}, floats=floats)
+        frames.append(cur)
+        state = dict(probe=None)
+
+        def place(fld, rec):
+            if cur["name"] is None or not fld.startswith(cur["name"] + "_"):
+                raise ParseError("field %s does not belong to frame %s" % (fld, cur["name"]))
+            sname = fld[len(cur["name"]) + 1:]
+            if sname in cur["signals"]:
+                raise ParseError("signal dissected twice: " + sname)
+            rec["is_float_field"] = fld in floats
+            cur["signals"][sname] = rec
+
+        def walk(block, mux):
+            for s in block:
+                if s[0] == "local" and s[1] == ["my_frame_tree"]:
+                    e = s[2][0] if s[2] else None
+                    if not (e and e[0] == "method" and e[1] == ("name", "framesubtree") and e[2] == "add" and e[3] and e[3][0][0] == "name"):
+                        raise ParseError("my_frame_tree is not framesubtree:add(<Proto>, ...)")
+                    cur["name"] = e[3][0][1]
+                elif s[0] == "local" and s[1] == ["is_signed"] and not s[2]:
+                    pass
+                elif s[0] == "local" and s[1] == ["muxer"] and len(s[2]) == 1:
+                    cur["muxer"] = bitfield(s[2][0])
+                elif s[0] == "assign" and s[1] == [("name", "is_signed")] and len(s[2]) == 1:
+                    state["probe"] = bitfield(s[2][0])
+                elif s[0] == "if" and len(s[1]) == 1 and s[1][0][0][0] == "bin" and ("name", "muxer") in s[1][0][0][2:]:
+                    if mux is not None or s[2] is not None:
+                        raise ParseError("nested or two-armed muxer condition")
+                    walk(s[1][0][1], eq_const(s[1][0][0], "muxer"))
+                elif s[0] == "if" and len(s[1]) == 1 and s[1][0][0][0] == "bin" and ("name", "is_signed") in s[1][0][0][2:]:
+                    if eq_const(s[1][0][0], "is_signed") != 1 or state["probe"] is None or s[2] is None or len(s[1][0][1]) != 1 or len(s[2]) != 1:
+                        raise ParseError("sign block not understood")
+                    (fa, va), (fb, vb) = tree_add(s[1][0][1][0]), tree_add(s[2][0])
+                    if fa != fb:
+                        raise ParseError("sign block adds two different fields")
+                    place(fa, dict(probe=state["probe"], then=va, **{"else": vb}, plain=None, mux=mux))
+                    state["probe"] = None
+                else:
+                    fld, v = tree_add(s)
+                    place(fld, dict(probe=None, then=None, **{"else": None}, plain=v, mux=mux))
+        walk(st[1][0][1], None)
     return frames
 
 
 NS = {"fx": "http://www.asam.net/xml/fbx", "ho": "http://www.asam.net/xml", "can": "http://www.asam.net/xml/fbx/can"}
 HO = "{%s}" % NS["ho"]
+
+
+def xs_bool(text):
+    """xs:boolean: true/1, false/0, surrounding white space allowed"""
+    v = (text or "").strip()
+    if v in ("true", "1"):
+        return True
+    if v in ("false", "0"):
+        return False
+    raise ParseError("not an xs:boolean: %r" % text)
 
 
 def parse_fibex(data):
@@ -343,7 +637,7 @@ def parse_fibex(data):
         if len(num) != 2 or len(den) != 1:
             raise ParseError("rational coefficients not linear")
         return dict(name=one(sig, "ho:SHORT-NAME").text, pos=int(one(si, "fx:BIT-POSITION").text) + base, rel=int(one(si, "fx:BIT-POSITION").text),
-                    hilo=one(si, "fx:IS-HIGH-LOW-BYTE-ORDER").text == "true", size=int(one(ct, "ho:BIT-LENGTH").text),
+                    hilo=xs_bool(one(si, "fx:IS-HIGH-LOW-BYTE-ORDER").text), size=int(one(ct, "ho:BIT-LENGTH").text),
                     type=ct.get(HO + "BASE-DATA-TYPE"), offset=num[0] / den[0], factor=num[1] / den[0], mux=None)
 
     frames = []
@@ -354,7 +648,7 @@ def parse_fibex(data):
         if int(one(pin, "fx:BIT-POSITION").text) != 0:
             raise ParseError("PDU not at bit 0")
         pdu = ref(pin, "fx:PDU-REF")
-        rec = dict(id=int(idv.text), ext=idv.get("EXTENDED-ADDRESSING", "false") == "true", length=int(one(fr, "fx:BYTE-LENGTH").text),
+        rec = dict(id=int(idv.text), ext=xs_bool(idv.get("EXTENDED-ADDRESSING", "false")), length=int(one(fr, "fx:BYTE-LENGTH").text),
                    pdu_length=int(one(pdu, "fx:BYTE-LENGTH").text), name=one(fr, "ho:SHORT-NAME").text, signals={}, switch=None, segments=[])
 
         def add(r):
@@ -366,13 +660,13 @@ def parse_fibex(data):
             mx = muxs[0]
             sw = one(mx, "fx:SWITCH")
             rec["switch"] = dict(name=one(sw, "ho:SHORT-NAME").text, pos=int(one(sw, "fx:BIT-POSITION").text),
-                                 hilo=one(sw, "fx:IS-HIGH-LOW-BYTE-ORDER").text == "true", size=int(one(sw, "ho:BIT-LENGTH").text))
+                                 hilo=xs_bool(one(sw, "fx:IS-HIGH-LOW-BYTE-ORDER").text), size=int(one(sw, "ho:BIT-LENGTH").text))
             for part, inst in (("fx:DYNAMIC-PART", "fx:SWITCHED-PDU-INSTANCES/fx:SWITCHED-PDU-INSTANCE"), ("fx:STATIC-PART", "fx:STATIC-PDU-INSTANCE")):
                 for p in X(mx, part):
                     seg = one(p, "fx:SEGMENT-POSITIONS/fx:SEGMENT-POSITION")
                     base = int(one(seg, "fx:BIT-POSITION").text)
                     seglen = int(one(seg, "ho:BIT-LENGTH").text)
-                    rec["segments"].append((part[3:], base, seglen, one(seg, "fx:IS-HIGH-LOW-BYTE-ORDER").text == "true"))
+                    rec["segments"].append((part[3:], base, seglen, xs_bool(one(seg, "fx:IS-HIGH-LOW-BYTE-ORDER").text)))
                     for pi in X(p, inst):
                         sub = ref(pi, "fx:PDU-REF")
                         code = X(pi, "fx:SWITCH-CODE")
@@ -404,14 +698,14 @@ def parse_csv(data, delimiter):
     for r in rows[1:]:
         g = lambda n: r[col[n]]
         idt = g("ID").strip()
-        mm = re.fullmatch(r"([0-9A-F]+)(x?)h", idt)
+        mm = re.fullmatch(r"([0-9A-Fa-f]+)(x?)h", idt)
         if not mm:
             raise ParseError("ID cell not understood: %r" % idt)
         fr = frames.setdefault(g("Frame Name"), dict(id=int(mm.group(1), 16), ext=mm.group(2) == "x", signals={}))
         if (fr["id"], fr["ext"]) != (int(mm.group(1), 16), mm.group(2) == "x"):
             raise ParseError("frame with two identifiers")
         inc = g("Function / Increment Unit")
-        mm = re.fullmatch(r"(\S+)  (.+)", inc) or re.fullmatch(r"(\S+) -", inc)
+        mm = re.fullmatch(r"(\S+)\s+(.+)", inc.strip())      # "<factor> <unit>" or "<factor> -" (the xls reader splits at the first blank)
         factor = None
         if mm:
             try:
